@@ -41,6 +41,13 @@ fn build_writer(tier: &str) -> WriterSpace {
                 }
             }
         }
+        // every residue of the link layer's 16-octet CRC blocks (segment data of 15, 16, 17 ... octets),
+        // also in the last segment of a longer fragment
+        for x in 3..=33usize {
+            v.push(x);
+            v.push(249 + x);
+        }
+        v.extend([239, 240, 241]);
         v.sort();
         v.dedup();
         v
@@ -520,6 +527,80 @@ impl CaseSpace for ConfirmedService {
     }
 }
 
+// ---------------------------------------------------------------------------------------
+// datagram mode: a truncated datagram costs its own fragment only
+// ---------------------------------------------------------------------------------------
+
+struct Datagrams;
+
+const DG_LENS: [usize; 4] = [1, 249, 250, 498];
+const DG_CUTS: [usize; 7] = [0, 1, 5, 9, 10, 40, usize::MAX];
+
+impl CaseSpace for Datagrams {
+    fn name(&self) -> String {
+        "datagram-mode-truncated-datagrams".to_string()
+    }
+    fn total(&self) -> usize {
+        DG_LENS.len() * DG_LENS.len() * DG_CUTS.len()
+    }
+    fn run(&self, index: usize, transcript: bool) -> RunResult {
+        let mut res = RunResult::default();
+        let lost_len = DG_LENS[index % DG_LENS.len()];
+        let i = index / DG_LENS.len();
+        let len = DG_LENS[i % DG_LENS.len()];
+        let cut = DG_CUTS[(i / DG_LENS.len()) % DG_CUTS.len()];
+        res.obs = index as u64 + 373737;
+        let lost = body(lost_len, 3);
+        let frag = body(len, 5);
+        let tail = body(3, 9);
+        let frame = |s: &Vec<u8>| link::frame(link::DIR | link::PRM | link::PRI_UNCONFIRMED_USER_DATA, OWN, PEER, s);
+        let mut r = TransportReaderSeam::new(false, OWN, false, false, true, 2048, false);
+        let mut got = Vec::new();
+        let mut err = None;
+        let mut feed = |r: &mut TransportReaderSeam, bytes: &[u8], got: &mut Vec<TransportOut>, err: &mut Option<String>| {
+            r.handle.push(bytes);
+            let (o, e) = r.drain();
+            got.extend(o);
+            if e.is_some() && err.is_none() {
+                *err = e;
+            }
+        };
+        // a datagram that ends inside the first frame of a fragment (cut 0 = nothing is lost)
+        if cut != 0 {
+            let first = frame(&transport::segment(&lost, 0)[0]);
+            let n = if cut == usize::MAX { first.len() - 1 } else { cut.min(first.len() - 1) };
+            feed(&mut r, &first[..n], &mut got, &mut err);
+        }
+        let mut seq = 20u8;
+        for f in [&frag, &tail] {
+            let segs = transport::segment(f, seq);
+            seq = (seq + segs.len() as u8) & 0x3F;
+            for sgm in &segs {
+                feed(&mut r, &frame(sgm), &mut got, &mut err);
+            }
+        }
+        res.transitions += 3;
+        if transcript {
+            res.transcript.push(format!("datagram cut after {cut} octets of a {lost_len}-octet fragment's first frame, then fragments of {len} and 3 octets, one frame per datagram: {} deliveries, error {err:?}", got.len()));
+        }
+        let ok = err.is_none()
+            && got.len() == 2
+            && matches!(&got[0], TransportOut::Fragment { src, broadcast: None, data, .. } if *src == PEER && *data == frag)
+            && matches!(&got[1], TransportOut::Fragment { src, broadcast: None, data, .. } if *src == PEER && *data == tail);
+        if !ok {
+            res.violation = Some(Violation::new(
+                "C08.D1",
+                "fragments-after-a-truncated-datagram-not-delivered",
+                format!("datagram cut after {cut} octets, then fragments of {len} and 3 octets: {} deliveries, error {err:?}", got.len()),
+            ));
+            return res;
+        }
+        res.nontrivial = true;
+        res.model_states.push((len * 8 + (cut.min(7))) as u64);
+        res
+    }
+}
+
 pub fn replay(name: &str, path: &[usize]) -> Option<RunResult> {
     for tier in ["quick", "thorough"] {
         let w = build_writer(tier);
@@ -534,6 +615,9 @@ pub fn replay(name: &str, path: &[usize]) -> Option<RunResult> {
     if ConfirmedService.name() == name {
         return Some(ConfirmedService.run(path[0], true));
     }
+    if Datagrams.name() == name {
+        return Some(Datagrams.run(path[0], true));
+    }
     None
 }
 
@@ -542,9 +626,10 @@ pub fn check(tier: &str) -> i32 {
     c.cases(&build_writer(tier));
     c.cases(&build_mutations(tier));
     c.cases(&ConfirmedService);
+    c.cases(&Datagrams);
     c.finish(
         "model_checking",
-        "writer: fragment lengths (every multiple of 249 +-1, 1, 2, 2047, 2048 quick; every length 1..=2048 thorough) x starting transport sequence numbers (6 quick incl. the wrap; all 64 thorough), output compared byte for byte with the reference segmenter and fed to the real transport Reader (link Layer + Assembler) whole, per frame, split inside the first and last frame and bytewise; reader: all applications of <= 2 (3 for 250/498/747-byte fragments in the thorough tier) operators from {drop, duplicate, swap, re-address, clear FIR, set FIR, interleave a second sender, overflow the buffer, turn a segment into a broadcast, skip a sequence number, reset the session before a segment} at the structural positions of the segment streams of fragments of 1/249/250/498/747/2048 bytes into receive buffers 249/250/498/2048, each followed by a clean fragment; deliveries must equal the reference reassembler's exactly (bytes, source, broadcast class) with consecutive fragment ids; confirmed link service: fragments of 1/249/250/349/498/747 octets in CONFIRMED_USER_DATA frames after a link reset, one frame repeated once or twice with the same frame count bit; non-trivial = at least one operator applied or a multi-chunk round trip; distinct = distinct input",
+        "writer: fragment lengths (every multiple of 249 +-1, 1..=33, 250..=282, 239..=241, 2047, 2048 quick; every length 1..=2048 thorough) x starting transport sequence numbers (6 quick incl. the wrap; all 64 thorough), output compared byte for byte with the reference segmenter and fed to the real transport Reader (link Layer + Assembler) whole, per frame, split inside the first and last frame and bytewise; reader: all applications of <= 2 (3 for 250/498/747-byte fragments in the thorough tier) operators from {drop, duplicate, swap, re-address, clear FIR, set FIR, interleave a second sender, overflow the buffer, turn a segment into a broadcast, skip a sequence number, reset the session before a segment} at the structural positions of the segment streams of fragments of 1/249/250/498/747/2048 bytes into receive buffers 249/250/498/2048, each followed by a clean fragment; deliveries must equal the reference reassembler's exactly (bytes, source, broadcast class) with consecutive fragment ids; confirmed link service: fragments of 1/249/250/349/498/747 octets in CONFIRMED_USER_DATA frames after a link reset, one frame repeated once or twice with the same frame count bit; datagram mode: a datagram cut inside a frame (7 cut points) followed by two fragments, one frame per datagram; non-trivial = at least one operator applied or a multi-chunk round trip; distinct = distinct input",
         &["operators are applied at the first, second, middle, last-but-one and last segment"],
         serde_json::json!({}),
     )
